@@ -695,6 +695,13 @@ func (r *runner) finalChecks() {
 	if r.has("no-5xx-without-fault") {
 		r.addV(checkNo5xx(r)...)
 	}
+	if r.has("no-5xx-in-fault-free-runs") && r.sc.Params["faults"] == "" {
+		// (C16: an id handed out twice surfaces as a unique violation, i.e. as a write refused with an internal error)
+		for _, v := range checkNo5xx(r) {
+			v.Clause = "a-write-is-never-refused-for-its-own-ids"
+			r.addV(v)
+		}
+	}
 	if r.has("volume-reads") {
 		r.addV(checkVolumeReads(r)...)
 	}
